@@ -123,9 +123,22 @@ func (t *SignalingState) Set(state SignalingState) {
 //nolint:gocognit,cyclop
 func checkNextSignalingState(cur, next SignalingState, op stateChangeOp, sdpType SDPType) (SignalingState, error) {
 	// Special case for rollbacks
-	if sdpType == SDPTypeRollback && cur == SignalingStateStable {
-		return cur, &rtcerr.InvalidModificationError{
-			Err: errSignalingStateCannotRollback,
+	if sdpType == SDPTypeRollback {
+		switch {
+		case cur == SignalingStateStable:
+			return cur, &rtcerr.InvalidModificationError{
+				Err: errSignalingStateCannotRollback,
+			}
+		// have-local-offer->SetLocal(rollback)->stable
+		// have-local-pranswer->SetLocal(rollback)->stable
+		case op == stateChangeOpSetLocal && next == SignalingStateStable &&
+			(cur == SignalingStateHaveLocalOffer || cur == SignalingStateHaveLocalPranswer):
+			return next, nil
+		// have-remote-offer->SetRemote(rollback)->stable
+		// have-remote-pranswer->SetRemote(rollback)->stable
+		case op == stateChangeOpSetRemote && next == SignalingStateStable &&
+			(cur == SignalingStateHaveRemoteOffer || cur == SignalingStateHaveRemotePranswer):
+			return next, nil
 		}
 	}
 
